@@ -155,6 +155,31 @@ def run_dtypes(ctx):
                 ctx.fail(case, f"{dt} polynomial of shape {shape} does not regenerate: {rp}", [f"dtype:{dt}", "regenerate"])
 
 
+def run_mixed_numbers(ctx):
+    """coefficient lists mixing narrow numpy scalars with plain Python numbers: the constructor must denote exactly the
+    numbers passed in"""
+    from fractions import Fraction
+    narrow = [numpy.int8(1), numpy.uint8(7), numpy.int16(-3), numpy.float32(0.5), numpy.array([2, 3], dtype="int8")]
+    py = [1000, -70000, 2 ** 40, 0.25]
+    for x in narrow:
+        for y in py:
+            for label, f in (("polynomial_from_attributes", lambda: numpoly.polynomial_from_attributes([[0], [1]], [x, y * numpy.ones(numpy.shape(x), dtype=type(y)) if numpy.shape(x) else y])),
+                             ("polynomial(dict)", lambda: numpoly.polynomial({(0,): x, (1,): y * numpy.ones(numpy.shape(x), dtype=type(y)) if numpy.shape(x) else y}))):
+                case = {"kind": "mixed-numbers", "route": label, "narrow": repr(x), "python": repr(y)}
+                ctx.evaluations += 1
+                ctx.count("mixed-numbers")
+                try:
+                    p = f()
+                except Exception as err:  # noqa: BLE001
+                    ctx.fail(case, f"{label}({x!r}, {y!r}) raised {type(err).__name__}: {str(err)[:100]}", ["mixed-numbers", "raises"])
+                    continue
+                got = den_of_struct(poly_to_struct(p))
+                xs = [Fraction(v) for v in numpy.atleast_1d(x).tolist()]
+                want = {(): tuple(xs), ((0, 1),): tuple(Fraction(y) for _ in xs)}
+                if got != want:
+                    ctx.fail(case, f"{label}({x!r}, {y!r}) denotes {den_key(got)[:150]}, the attributes say {den_key(want)[:150]}", ["mixed-numbers", "value"])
+
+
 def run_catalogue(ctx):
     rng = ctx.rng("catalogue")
     reps = 12 if ctx.quick else 150
@@ -202,6 +227,7 @@ def run(ctx):
     ctx.sample({"attrs": {k: cases[0][k] for k in ("names", "expos", "cols", "shape", "rc", "rn")}, "model": {k: v for k, v in answers[0].items() if k != "id"}})
     run_catalogue(ctx)
     run_dtypes(ctx)
+    run_mixed_numbers(ctx)
 
 
 def replay(ctx, case):
